@@ -3,7 +3,7 @@ CONSTANTS
   MaxWrites = 1
   MaxCrashes = 1
   ClassSel = "entry"
-  Defects = {"deleteBeforeFlush", "renorm", "keyCollision", "intM"}
+  Defects = {"deleteBeforeFlush", "renorm"}
   Emit = TRUE
 INVARIANTS TypeOK EmitInv
 CHECK_DEADLOCK FALSE
